@@ -47,6 +47,8 @@ class Client:
         self.abort_fired_at: str | None = None
         self.abort_in: str | None = None
         self.abort_hits = 0
+        self.after_write = False
+        self.prev_was_write = False
         self.in_op = False
         self.log: list[list[str]] = []  # log records emitted by this client during current op
         self.error: BaseException | None = None
@@ -102,6 +104,14 @@ class Scheduler:
                 self.clients[idx].priority = prio + 1  # larger = runs first
         elif self.mode == "sequential":
             self._p_boundary = float(schedule.get("p_boundary", 0.5))
+        elif self.mode == "writes":
+            # switch right AFTER a line that writes to the heap (STORE_ATTR / STORE_SUBSCR /
+            # STORE_GLOBAL / mutating method calls), then let the other thread run for a long
+            # stretch: "A has just half-updated shared state, B runs through it"
+            self._p_write = float(schedule.get("p", 0.3))
+            self._hold = max(1, int(schedule.get("hold", 500)))
+            self._hold_until = 0
+        self._write_lines: dict[int, frozenset[int]] = {}
 
     # ------------------------------------------------------------------ helpers
     def probe(self, name: str, n: int = 1) -> None:
@@ -142,6 +152,19 @@ class Scheduler:
                 others = [c for c in self._runnable() if c is not cur]
                 if others:
                     return others[self._rng.randrange(len(others))]
+            return None
+        if self.mode == "writes":
+            if cur.after_write and step >= self._hold_until and not boundary:
+                cur.after_write = False
+                if self._rng.random() < self._p_write:
+                    others = [c for c in self._runnable() if c is not cur]
+                    if others:
+                        self._hold_until = step + 1 + int(self._rng.expovariate(1.0 / self._hold))
+                        return others[self._rng.randrange(len(others))]
+            elif boundary and step >= self._hold_until:
+                runnable = self._runnable()
+                if len(runnable) > 1 and self._rng.random() < 0.3:
+                    return runnable[self._rng.randrange(len(runnable))]
             return None
         if self.mode == "pct":
             if step in self._pct_points:
@@ -184,8 +207,37 @@ class Scheduler:
         c = frame.f_code
         return f"{os.path.basename(c.co_filename)}:{frame.f_lineno}:{c.co_qualname}"
 
+    _WRITE_OPS = frozenset({"STORE_ATTR", "STORE_SUBSCR", "STORE_GLOBAL", "DELETE_ATTR",
+                            "DELETE_SUBSCR", "DELETE_GLOBAL", "STORE_DEREF", "STORE_NAME"})
+    _MUTATORS = frozenset({"append", "extend", "update", "clear", "sort", "pop", "remove", "insert",
+                           "setdefault", "add", "discard", "reverse", "popitem", "__setitem__",
+                           "__setattr__", "cache_clear"})
+
+    def _writes_of(self, code: Any) -> frozenset[int]:
+        w = self._write_lines.get(id(code))
+        if w is None:
+            import dis
+
+            lines = set()
+            cur_line = code.co_firstlineno
+            for ins in dis.get_instructions(code):
+                if ins.starts_line is not None:
+                    cur_line = ins.starts_line
+                if ins.opname in self._WRITE_OPS or (
+                        ins.opname in ("LOAD_ATTR", "LOAD_METHOD") and ins.argval in self._MUTATORS):
+                    lines.add(cur_line)
+            w = frozenset(lines)
+            self._write_lines[id(code)] = w
+        return w
+
     def yield_point(self, cur: Client, frame: Any = None, boundary: bool = False) -> None:
         self.global_step += 1
+        if self.mode == "writes" and frame is not None and not isinstance(frame, tuple):
+            # the line we are ABOUT to run is frame.f_lineno; the previous line of this client has
+            # completed: if it was a write line we are now "just after a write"
+            code = frame.f_code
+            cur.after_write = cur.prev_was_write
+            cur.prev_was_write = frame.f_lineno in self._writes_of(code)
         if self.global_step > self.step_cap:
             raise StepCap(f"step cap {self.step_cap} exceeded")
         if cur.in_op and not boundary:
